@@ -1,3 +1,16 @@
 import SparseV.Props.C08
 #print axioms SparseV.C08.reshape_get
 #print axioms SparseV.C08.reshape_preserves_linear
+#print axioms SparseV.C08.transpose_get
+#print axioms SparseV.C08.transpose_src_inb
+#print axioms SparseV.C08.transpose_axes_valid_iff
+#print axioms SparseV.C08.transpose_canonical
+#print axioms SparseV.C08.flip_get
+#print axioms SparseV.C08.flip_src_inb
+#print axioms SparseV.C08.roll_get
+#print axioms SparseV.C08.roll_src_inb
+#print axioms SparseV.C08.roll_get_single
+#print axioms SparseV.C08.squeeze_get
+#print axioms SparseV.C08.squeeze_src_unique
+#print axioms SparseV.C08.expand_dims_get
+#print axioms SparseV.C08.expand_dims_onto
